@@ -29,7 +29,7 @@ def _import_order(hid, sym, desc, domain):
                 desc=desc, domain=domain,
                 oracle='the REAL comparator lambda (exported from its TU) is a strict order without ties on two distinct types: '
                        'exactly one of less(a,b), less(b,a) holds, and less(a,a) is false',
-                bounds=dict(quick=dict(defs=dict(SYMBOLIC=sym), unwind=24, unwindset={'ll_memcpy.0': 48, 'll_memmove.0': 48}, cap=900)))
+                bounds=dict(quick=dict(defs=dict(SYMBOLIC=sym), unwind=24, unwindset={'ll_memcpy.0': 48, 'll_memmove.0': 48}, cap=600)))
 
 
 HARNESSES += [
@@ -37,8 +37,8 @@ HARNESSES += [
                   'sort key of the external-import table (write_prototypes) on NameTable::Entry vs SlotTable::Entry and controls',
                   'classes NameTable, SlotTable, NameTable::Entry, SlotTable::Entry built with the real constructors under the global scope'),
     _import_order('c14_import_order_sym', 1,
-                  'sort key of the external-import table on two nested classes with symbolic names',
-                  'classes T<o1>::E<i1> and T<o2>::E<i2>, letters o1,o2,i1,i2 symbolic in a..z with (o1,i1) != (o2,i2)'),
+                  'sort key of the external-import table on two nested classes whose unscoped names are symbolic (equal or not)',
+                  'classes Ta::E<i1> and Sb::E<i2>, letters i1, i2 symbolic in a..z (26 of the 676 pairs share the unscoped name)'),
 ]
 
 PROPERTY_INFO = {
